@@ -800,6 +800,22 @@ Fixpoint qq_ref_p (d : nat) (t : model) : M value :=
       end
   end.
 
+Definition qq_item_p (d : nat) (x : model) : M (list value) :=
+  match active_unquote d x with
+  | Some (true, arg) =>
+      bind (eval arg) (fun v => lift (match elems_of v with
+                                      | Ok es => as_model_list es
+                                      | Err e => Err e
+                                      end))
+  | _ => bind (qq_ref_p d x) (fun v => ret [v])
+  end.
+
+Fixpoint qq_items_p (d : nat) (l : list model) : M (list value) :=
+  match l with
+  | [] => ret []
+  | x :: r => bind (qq_item_p d x) (fun vs => bind (qq_items_p d r) (fun ws => ret (vs ++ ws)))
+  end.
+
 (* compile_quote + evaluation of what it compiled *)
 Definition run_quote (root_is_quote : bool) (arg : model) : M value :=
   match quote_form norm root_is_quote arg with
